@@ -203,8 +203,9 @@ package broker
 //@   ensures [noconnack] !(err == nil && istype(pkt, *packet.Connack)) ==> (connack_sp <==> old(connack_sp)) && connack_code == old(connack_code)
 //@   ensures [dup]       nnodup == old(nnodup) + (err == nil && istype(pkt, *packet.Publish) && !as(pkt, *packet.Publish).Dup ? 1 : 0)
 //@   ensures [pubq]      npubq == old(npubq) + (err == nil && istype(pkt, *packet.Publish) && as(pkt, *packet.Publish).Message.QOS > 0 ? 1 : 0)
-//@   ensures [fail]      err != nil ==> nsent == old(nsent) && nsentall == old(nsentall) && lastid == old(lastid)
-//@   modifies nsent, nsentall, lastid, connack_sp, connack_code, nnodup, npubq
+//@   ensures [seq]       err == nil ==> sentseq[old(nsentall)] == as(pkt, *packet.Publish) && forall j int {sentseq[j]} :: j != old(nsentall) ==> sentseq[j] == old(sentseq[j])
+//@   ensures [fail]      err != nil ==> nsent == old(nsent) && nsentall == old(nsentall) && lastid == old(lastid) && sentseq == old(sentseq)
+//@   modifies nsent, nsentall, sentseq, lastid, connack_sp, connack_code, nnodup, npubq
 //
 //@ func (c *Client) die(event LogEvent, err error) (res error)
 //@   requires [client] client_ok(c)
@@ -215,7 +216,7 @@ package broker
 //@   requires [client] client_ok(c)
 //@   ensures [pingresp] err == nil ==> nsent[13] == old(nsent[13]) + 1 && nsentall == old(nsentall) + 1
 //@   ensures [no-connack] nsent[2] == old(nsent[2]) && nsentall <= old(nsentall) + 1
-//@   modifies nsent, nsentall, lastid, connack_sp, connack_code, nnodup, npubq, nclose, tdying[c.tomb]
+//@   modifies nsent, nsentall, sentseq, lastid, connack_sp, connack_code, nnodup, npubq, nclose, tdying[c.tomb]
 //
 //@ func (c *Client) processDisconnect() (err error)
 //@   requires [client] client_ok(c)
@@ -235,7 +236,7 @@ package broker
 //@   ensures [pubrel] err == nil ==> saved[1][id] == 6 && nsent[6] == old(nsent[6]) + 1 && lastid[6] == id
 //@   ensures [no-connack] nsent[2] == old(nsent[2]) && nsentall <= old(nsentall) + 1
 //@   ensures [incoming] old(incoming_ok()) ==> incoming_ok()
-//@   modifies saved, nsent, nsentall, lastid, connack_sp, connack_code, nnodup, npubq, nclose, tdying[c.tomb]
+//@   modifies saved, nsent, nsentall, sentseq, lastid, connack_sp, connack_code, nnodup, npubq, nclose, tdying[c.tomb]
 //
 //@ func (c *Client) processPublish(publish *packet.Publish) (err error)
 //@   requires [client] connected(c)
@@ -246,7 +247,7 @@ package broker
 //@   ensures [no-direct-ack] nsent[4] == old(nsent[4]) && nsent[7] == old(nsent[7]) && nqueued == old(nqueued)
 //@   ensures [no-connack] nsent[2] == old(nsent[2]) && nsentall <= old(nsentall) + 1
 //@   ensures [incoming] old(incoming_ok()) ==> incoming_ok()
-//@   modifies saved, nsent, nsentall, lastid, connack_sp, connack_code, nnodup, npubq, npublish, pubmsg, puback, ptok, nclose, tdying[c.tomb]
+//@   modifies saved, nsent, nsentall, sentseq, lastid, connack_sp, connack_code, nnodup, npubq, npublish, pubmsg, puback, ptok, nclose, tdying[c.tomb]
 //
 //@ func (c *Client) processPubrel(id packet.ID) (err error)
 //@   requires [client] connected(c)
@@ -256,7 +257,7 @@ package broker
 //@   ensures [always-pubcomp] err == nil ==> nsent[7] == old(nsent[7]) + 1 || (npublish == old(npublish) + 1 && puback != 0)
 //@   ensures [kept] saved == old(saved)
 //@   ensures [no-connack] nsent[2] == old(nsent[2]) && nsentall <= old(nsentall) + 1
-//@   modifies nsent, nsentall, lastid, connack_sp, connack_code, nnodup, npubq, npublish, pubmsg, puback, nclose, tdying[c.tomb]
+//@   modifies nsent, nsentall, sentseq, lastid, connack_sp, connack_code, nnodup, npubq, npublish, pubmsg, puback, nclose, tdying[c.tomb]
 //@   at call 1 Publish assert [pubcomp-id] pubcomp.ID == id && as(pkt, *packet.Publish) == publish
 
 // Session invariant of the outgoing direction: the broker stores only PUBLISH
@@ -268,7 +269,7 @@ package broker
 //@ func (c *Client) acker() (err error)
 //@   requires [client] connected(c)
 //@   ensures [err] err != nil
-//@   modifies saved, nsent, nsentall, lastid, connack_sp, connack_code, nnodup, npubq, ptok, stok, nclose, tdying[c.tomb]
+//@   modifies saved, nsent, nsentall, sentseq, lastid, connack_sp, connack_code, nnodup, npubq, ptok, stok, nclose, tdying[c.tomb]
 //
 // dequeuer: tokens held by this invocation are never fewer than the QoS>0
 // publishes it has sent (a token is taken per dequeue and given back in the
@@ -278,7 +279,7 @@ package broker
 //@   requires [client] connected(c)
 //@   requires [ghost-init] dtok == 0 && npubq == 0
 //@   ensures [err] err != nil
-//@   modifies saved, dtok, dtry, ndequeue, nsent, nsentall, lastid, connack_sp, connack_code, nnodup, npubq, nclose, tdying[c.tomb]
+//@   modifies saved, dtok, dtry, ndequeue, nsent, nsentall, sentseq, lastid, connack_sp, connack_code, nnodup, npubq, nclose, tdying[c.tomb]
 //@   loop 1 invariant [window] dtok >= npubq
 //
 //@ func (c *Client) processConnect(pkt *packet.Connect) (err error)
@@ -297,8 +298,9 @@ package broker
 //@   ensures [resend-dup] nnodup == old(nnodup)
 //@   ensures [resend-window] err == nil ==> dtok - old(dtok) <= nall && dtry - old(dtry) == nall
 //@   ensures [saved] saved == old(saved)
-//@   modifies c.id, c.state, c.session, c.will, c.MaximumKeepAlive, c.ParallelPublishes, c.ParallelSubscribes, c.InflightMessages, c.TokenTimeout, c.PacketCallback, c.Ref, c.publishTokens, c.subscribeTokens, c.dequeueTokens, c.ackQueue, any(packet.Publish.Dup), nauth, authok, nsetup, setup_resumed, nrestore, nall, nsent, nsentall, lastid, connack_sp, connack_code, nnodup, npubq, dtok, dtry, ptok, stok, nclose, tdying[c.tomb]
+//@   modifies c.id, c.state, c.session, c.will, c.MaximumKeepAlive, c.ParallelPublishes, c.ParallelSubscribes, c.InflightMessages, c.TokenTimeout, c.PacketCallback, c.Ref, c.publishTokens, c.subscribeTokens, c.dequeueTokens, c.ackQueue, any(packet.Publish.Dup), nauth, authok, nsetup, setup_resumed, nrestore, nall, nsent, nsentall, sentseq, lastid, connack_sp, connack_code, nnodup, npubq, dtok, dtry, ptok, stok, nclose, tdying[c.tomb]
 //@   loop 4 invariant [resent] 0 <= rangeindex + 1 && rangeindex + 1 <= len(packets) && nall == len(packets) && nsentall == old(nsentall) + 1 + rangeindex + 1 && nnodup == old(nnodup) && nsent[2] == 1 && connack_code == 0 && (connack_sp <==> (!pkt.CleanSession && setup_resumed))
+//@   loop 4 invariant [order] forall k int {sentseq[k]} :: old(nsentall) + 1 <= k && k <= old(nsentall) + 1 + rangeindex ==> sentseq[k] == as(packets[k - old(nsentall) - 1], *packet.Publish)
 //@   loop 4 invariant [tokens] dtok - old(dtok) <= rangeindex + 1 && dtry - old(dtry) == rangeindex + 1
 //@   loop 4 invariant [stored] forall i int {packets[i]} :: 0 <= i && i < len(packets) ==> packets[i] != nil && typecode(packets[i]) != 0 && as(packets[i], *packet.Publish) != nil && saved[1][idOf(packets[i])] == typecode(packets[i]) && idOf(packets[i]) != 0
 //@   loop 4 invariant [state] authok && nsetup == old(nsetup) + 1 && connected(c) && c.state == 1 && outgoing_ok() && saved == old(saved) && (pkt.Will != nil ==> c.will == pkt.Will) && (pkt.Will == nil ==> c.will == old(c.will))
@@ -315,7 +317,7 @@ package broker
 //@   ensures [one-reply] nsentall <= old(nsentall) + 1 && nsent[2] == old(nsent[2])
 //@   ensures [incoming-kept] incoming_ok()
 //@   ensures [disconnect] typecode(pkt) == 14 ==> err != nil && c.will == nil && c.state == 2
-//@   modifies c.will, c.state, saved, nsent, nsentall, lastid, connack_sp, connack_code, nnodup, npubq, npublish, pubmsg, puback, nsubscribe, nunsubscribe, ptok, stok, dtok, nclose, tdying[c.tomb]
+//@   modifies c.will, c.state, saved, nsent, nsentall, sentseq, lastid, connack_sp, connack_code, nnodup, npubq, npublish, pubmsg, puback, nsubscribe, nunsubscribe, ptok, stok, dtok, nclose, tdying[c.tomb]
 //
 // processSubscribe: the SUBACK released through the backend's ack carries the
 // request's id and one return code per requested filter, in request order.
@@ -381,7 +383,7 @@ package broker
 //@   ensures [connect-first] nauth == old(nauth) ==> nsentall == old(nsentall) && nsetup == old(nsetup) && npublish == old(npublish) && nsubscribe == old(nsubscribe) && nunsubscribe == old(nunsubscribe) && saved == old(saved) && c.will == old(c.will) && c.state == old(c.state)
 //@   ensures [accept-first] nsetup == old(nsetup) ==> npublish == old(npublish) && nsubscribe == old(nsubscribe) && nunsubscribe == old(nunsubscribe) && saved == old(saved) && c.will == old(c.will) && nsentall <= old(nsentall) + 1
 //@   ensures [one-connack] nsent[2] <= 1
-//@   modifies c.id, c.state, c.session, c.will, c.MaximumKeepAlive, c.ParallelPublishes, c.ParallelSubscribes, c.InflightMessages, c.TokenTimeout, c.PacketCallback, c.Ref, c.publishTokens, c.subscribeTokens, c.dequeueTokens, c.ackQueue, any(packet.Publish.Dup), nauth, authok, nsetup, setup_resumed, nrestore, nall, saved, nsent, nsentall, lastid, connack_sp, connack_code, nnodup, npubq, npublish, pubmsg, puback, nsubscribe, nunsubscribe, dtok, dtry, ptok, stok, nclose, tdying[c.tomb], tstarted[c.tomb]
+//@   modifies c.id, c.state, c.session, c.will, c.MaximumKeepAlive, c.ParallelPublishes, c.ParallelSubscribes, c.InflightMessages, c.TokenTimeout, c.PacketCallback, c.Ref, c.publishTokens, c.subscribeTokens, c.dequeueTokens, c.ackQueue, any(packet.Publish.Dup), nauth, authok, nsetup, setup_resumed, nrestore, nall, saved, nsent, nsentall, sentseq, lastid, connack_sp, connack_code, nnodup, npubq, npublish, pubmsg, puback, nsubscribe, nunsubscribe, dtok, dtry, ptok, stok, nclose, tdying[c.tomb], tstarted[c.tomb]
 //@   loop 1 invariant [serving] connected(c) && incoming_ok() && nauth == old(nauth) + 1 && nsetup == old(nsetup) + 1 && nsent[2] == 1
 //
 //@ func NewClient(backend Backend, conn transport.Conn) (c *Client)
